@@ -50,6 +50,10 @@ def cfgs_for(d, p, tier):
     out.append({'entry': 'coneqp', 'storage': 'dense', 'kkt': 'chol', 'opts': {'refinement': 2}})
     out.append({'entry': 'coneqp', 'storage': 'dense', 'kkt': 'ldl', 'opts': {'abstol': -1.0, 'reltol': 1e-3, 'feastol': 1e-4}})
     out.append({'entry': 'coneqp', 'storage': 'dense', 'kkt': 'ldl', 'opts': {'abstol': 1e-3, 'reltol': -1.0, 'feastol': 1e-4}})
+    # tighter than the global defaults / an iteration limit: an entry point that drops its per-call options shows here
+    for ent in ['coneqp'] + (['qp'] if only_l else []):
+        out.append({'entry': ent, 'storage': 'dense', 'kkt': None, 'opts': {'feastol': 1e-9, 'abstol': 1e-9, 'reltol': 1e-9}})
+        out.append({'entry': ent, 'storage': 'dense', 'kkt': None, 'opts': {'maxiters': 2}})
     if only_l:
         for st in ('dense', 'sparse'):
             out.append({'entry': 'qp', 'storage': st, 'kkt': None})
